@@ -27,7 +27,7 @@ pub fn plan() -> Plan {
     let profiles = vec![p, single];
     Plan {
         profiles,
-        directed: vec![],
+        directed: vec![("shared-turn-holder-stuck", |h| h.shared_turn_holder_stuck())],
         quick_histories: 500,
         thorough_histories: 320_000,
         s5: Some((2, 30, s4common::s5_default(false, 3))),
